@@ -138,7 +138,20 @@ fn bom_like_sources(rep: &mut Report) {
     }
 }
 
+/// the LIBIDs of tla/vba/VbaDir.tla (X07)
+fn libid_of(id: &str) -> Vec<u8> {
+    match id {
+        "std" => crate::build::vba::STD_LIBID.to_vec(),
+        "other" => b"*\\G{11111111-2222-3333-4444-555555555555}#1.0#0#D:\\lib\\other.dll#Other Lib".to_vec(),
+        "nopath" => b"*\\G{00020430-0000-0000-C000-000000000046}#2.0#0##Desc Only".to_vec(),
+        "hashhash" => b"*\\G{00020430-0000-0000-C000-000000000046}#2.0#0##".to_vec(),
+        "empty" => Vec::new(),
+        o => panic!("harness: libid {}", o),
+    }
+}
+
 pub fn replay_vbadir(args: &Args) -> i32 {
+    let refs_detail = args.num("refs_detail", 0) == 1;
     let mut rep = Report::new();
     let _ = xlsb::PTG_INT_1;
     bom_like_sources(&mut rep);
@@ -150,7 +163,8 @@ pub fn replay_vbadir(args: &Args) -> i32 {
         let mut desc = ProjectDesc { compat: d["compat"].as_bool().unwrap(), codepage: cp as u16, refs: vec![], modules: vec![] };
         for r in d["refs"].as_array().unwrap() {
             let n = r["name"].as_str().unwrap();
-            desc.refs.push(RefDesc { kind: r["kind"].as_str().unwrap().into(), name: n.as_bytes().to_vec(), name_unicode: n.into() });
+            let libs: Vec<Vec<u8>> = r["libs"].as_array().map_or(vec![], |l| l.iter().map(|x| libid_of(x.as_str().unwrap())).collect());
+            desc.refs.push(RefDesc { kind: r["kind"].as_str().unwrap().into(), name: n.as_bytes().to_vec(), name_unicode: n.into(), libs });
         }
         let mut containers = Vec::new();
         let mut want_names: Vec<String> = Vec::new();
@@ -185,12 +199,17 @@ pub fn replay_vbadir(args: &Args) -> i32 {
             let refs: Vec<String> = v.get_references().iter().map(|r| r.name.clone()).collect();
             let want_refs: Vec<String> = b["refs"].as_array().unwrap().iter().map(|x| x.as_str().unwrap().to_string()).collect();
             if refs != want_refs { return Err(format!("references {:?}, expected {:?}", refs, want_refs)); }
+            // X07 (`--refs_detail 1`): description and path of every reference
+            if refs_detail {
+                let got: Vec<Value> = v.get_references().iter().map(|r| json!({"name": r.name, "desc": r.description, "path": r.path.to_string_lossy()})).collect();
+                if json!(got) != b["refdetail"] { return Err(format!("refs-detail: {} expected {}", json!(got), b["refdetail"])); }
+            }
             Ok(())
         });
         match res {
             Ok(Ok(())) => { if rep.evaluated % 997 == 1 { rep.sample(json!({"project": d})); } }
             Ok(Err(m)) => {
-                let key = if b.to_string().contains("grp8") && m.contains("raw content") || m.contains("Invalid") { "feature:flag-group-complete-at-chunk-end" } else { "unexplained" };
+                let key = if m.starts_with("refs-detail") { "refs-detail" } else if b.to_string().contains("grp8") && m.contains("raw content") || m.contains("Invalid") { "feature:flag-group-complete-at-chunk-end" } else { "unexplained" };
                 rep.fail(key, &b, json!({"modules": want_names, "lens": b["lens"]}), json!({ "mismatch": m }))
             }
             Err(p) => rep.fail("unexplained", &b, json!({"modules": want_names}), json!({ "panic": p })),
